@@ -14,8 +14,8 @@ sys.path.insert(0, VERIF)
 from lift.assemble import assemble, REPO  # noqa: E402
 from lift.lifter import LiftError  # noqa: E402
 
-WORK = os.path.join(VERIF, 'work')
-EVID = os.path.join(VERIF, 'evidence')
+WORK = os.environ.get('VERIF_WORK') or os.path.join(VERIF, 'work')
+EVID = os.environ.get('VERIF_EVID') or os.path.join(VERIF, 'evidence')
 
 VERDICT_PATTERNS = [
     'postcondition not satisfied', 'precondition not satisfied', 'invariant not satisfied',
@@ -149,15 +149,27 @@ def trusted_scan(text, table):
 GENERIC_TAGS = {None, 'sep', 'requires', 'ensures', 'invariant', 'decreases', 'requires-kw', 'ensures-kw',
                 'invariant-kw', 'decreases-kw', 'invariant_except_break', 'invariant_except_break-kw',
                 'proof', 'R0', 'R0-ret', 'R0-impl', 'R0-binder', 'R0-loophdr', 'R1', 'R2', 'R3', 'R5', 'R5-header',
-                'R8', 'R-subst', 'rename', 'R3-derive', 'loop_ensures', 'loop_ensures-kw', 'R6', 'R7', 'R9', 'R11', 'R12', 'R13', 'R14',
+                'R8', 'R-subst', 'rename', 'R3-derive', 'loop_ensures', 'loop_ensures-kw', 'R6', 'R7', 'R9', 'R11', 'R12', 'R13', 'R14', 'R16',
                 'R0-attr', 'R0-static', 'include'}
+
+
+_FN_RE = re.compile(r'^\s*(?:pub(?:\([a-z]+\))?\s+)?(?:(?:proof|spec|exec|open|closed|broadcast|axiom|uninterp)\s+)*fn\s+(\w+)')
+
+
+def enclosing_fn(lines, ln):
+    """Name of the function whose text contains assembled line `ln` (1-based): nearest `fn` header at or above it."""
+    for i in range(min(ln, len(lines)) - 1, -1, -1):
+        m = _FN_RE.match(lines[i])
+        if m:
+            return m.group(1)
+    return None
 
 
 def _is_verdict(msg):
     return any(p in msg for p in VERDICT_PATTERNS)
 
 
-def _classify(diags, table, unit, cfg):
+def _classify(diags, table, unit, cfg, text_lines=None):
     """Turn verus diagnostics into failures / undecided reasons."""
     failures, undecided = [], []
     for d in diags:
@@ -220,7 +232,8 @@ def _classify(diags, table, unit, cfg):
             else:
                 props = list(cfg.get('unnamed', cfg['properties']))
         rec = {'obligation': obligation, 'kind': kind, 'message': msg.split('\n')[0], 'source': src_loc, 'labels': labels,
-               'properties': props, 'canary': canary, 'rendered': d.get('rendered', '')[:4000]}
+               'properties': props, 'canary': canary, 'rendered': d.get('rendered', '')[:4000],
+               'function': enclosing_fn(text_lines, labels[0]['assembled_line']) if (text_lines and labels and not str(labels[0]['file']).startswith('vstd:')) else None}
         if not in_lifted and not named and not canary:
             undecided.append(f'proof of a framework lemma/spec failed ({kind}) at assembled line {labels[0]["assembled_line"] if labels else "?"}: ' + (labels[0]['text'] if labels else ''))
             continue
@@ -241,8 +254,8 @@ def _run_unit_once(unit, tier, seed, carry):
     extra_shims = dict(res.get('auto_shims') or {})
     havoc = list(res.get('auto_havoc_decls') or [])
     try:
-        degrade = bool(carry.get('degrade'))
-        res['degraded'] = degrade
+        degrade = carry.get('degrade') or False
+        res['degraded'] = bool(degrade)
         text, table, meta = assemble(os.path.join(VERIF, cfg['template']), extra_shims=extra_shims, havoc_decls=havoc, degrade=degrade)
         ctext, ctable, _ = assemble(os.path.join(VERIF, cfg['template']), canary=True, extra_shims=extra_shims, havoc_decls=havoc, degrade=degrade)
     except LiftError as e:
@@ -261,8 +274,10 @@ def _run_unit_once(unit, tier, seed, carry):
     open(cpath, 'w', encoding='utf-8').write(ctext)
     json.dump(table, open(os.path.join(wdir, 'linetable.json'), 'w'))
     res['meta'] = meta
-    if meta.get('structure_changed'):
+    res['degraded_fns'] = list(meta.get('degraded_fns', []))
+    if res['degraded_fns']:
         res['degraded'] = True
+    text_lines = text.split('\n')
     for la in meta.get('lost_anchors', []):
         props = sorted({p for n in la['clauses'] for p in n.split('.')[0].split('+') if re.fullmatch(r'C\d{2,3}', p)})
         res.setdefault('undecided_scoped', []).append({'msg': 'lift (block skipped): ' + la['msg'], 'properties': props or list(cfg['properties'])})
@@ -294,7 +309,7 @@ def _run_unit_once(unit, tier, seed, carry):
             res['undecided'].append('verus internal error (panic): ' + next(x for x in r['stderr_other'] if 'panicked at' in x)[:200])
         if r['summary'] is None:
             res['undecided'].append(f'verus produced no summary (rc={r["rc"]}): ' + ' | '.join(r['stderr_other'][:3])[:500])
-        fails, und = _classify(r['diags'], table, unit, cfg)
+        fails, und = _classify(r['diags'], table, unit, cfg, text_lines)
         if sd is None:
             res['_diags'] = r['diags']
         for f in fails:
@@ -422,9 +437,24 @@ def run_unit(unit, tier='quick', seed=0):
                     carry.setdefault('auto_havoc', []).append(pth)
                     new = True
         # ghost text (invariants / hints) that no longer compiles against the lifted code: retry on pre/postconditions alone
-        if not new and not carry.get('degrade') and r['status'] == 'undecided' and \
-                any(u.startswith('verifier front-end:') and ('at None:None' in u or 'at template:' in u) for u in r['undecided']):
-            carry['degrade'] = True
+        ghost_errs = [u for u in r['undecided'] if u.startswith('verifier front-end:') and ('at None:None' in u or 'at template:' in u)]
+        if not new and carry.get('degrade') is not True and r['status'] == 'undecided' and ghost_errs:
+            # only the functions whose ghost text is in error are degraded; the others keep their full contracts
+            try:
+                tl = open(os.path.join(WORK, 'units', unit, 'u_' + unit + '.rs'), encoding='utf-8').read().split('\n')
+            except OSError:
+                tl = []
+            fns = set()
+            for u in ghost_errs:
+                m = re.search(r'\(assembled line (\d+)\)', u)
+                fn = enclosing_fn(tl, int(m.group(1))) if (m and tl) else None
+                fns.add(fn)
+            lifted = {f.get('as') or f['name'] for f in r.get('meta', {}).get('functions', []) if f['kind'] != 'type'}
+            prev = carry.get('degrade') or set()
+            if None in fns or not fns <= lifted or fns <= prev:
+                carry['degrade'] = True
+            else:
+                carry['degrade'] = set(prev) | fns
             new = True
         if not new:
             break
@@ -432,7 +462,9 @@ def run_unit(unit, tier='quick', seed=0):
         r = first   # the weakened attempts did not get past the front end either: report the plain run
     if r.get('degraded'):
         # with the invariants dropped, loop well-formedness / termination failures are artefacts of the weakening
-        r['failures'] = [f for f in r['failures'] if not ('invariant' in f['kind'] or 'decreases' in f['kind'] or 'termination' in f['kind'])]
+        dfn = set(r.get('degraded_fns') or [])
+        r['failures'] = [f for f in r['failures'] if not ((f.get('function') in dfn or f.get('function') is None) and
+                                                          ('invariant' in f['kind'] or 'decreases' in f['kind'] or 'termination' in f['kind']))]
         if not r['failures'] and not r['undecided']:
             r['status'] = 'ok'
     r.pop('_diags', None)
@@ -443,7 +475,7 @@ def print_unit_result(r):
     print(f"unit {r['unit']}: {r['status']}  obligations={r.get('obligations')} discharged={r.get('discharged')} "
           f"verified_fns={r.get('verus_verified')} canary={r.get('canary')} smt_ms={r.get('smt_time_ms')} wall={r.get('wall_s', 0):.1f}s")
     if r.get('degraded'):
-        print('  degraded mode: loop invariants / proof hints dropped (they do not type-check against the lifted code)')
+        print('  degraded mode: loop invariants / proof hints dropped (they do not type-check against the lifted code) in', r.get('degraded_fns'))
     if r.get('auto_havoc') or r.get('auto_shims'):
         print('  auto-repair: shims', sorted((r.get('auto_shims') or {}).keys()), 'unconstrained std functions', r.get('auto_havoc'))
     for u in r['undecided']:
@@ -490,17 +522,21 @@ def check_property(pid, tier='quick', seed=0):
     kf_lines = rp.known_finding_lines(pid, kf, results)
     nviol = 0
     seen = set()
-    havocked = {r['unit']: (list(r.get('auto_havoc', [])) + (['<loop invariants and proof hints dropped: they no longer type-check against the lifted code>'] if r.get('degraded') else [])) for r in results}
+    havoc_unit = {r['unit']: list(r.get('auto_havoc', [])) for r in results}
+    degr_fns = {r['unit']: set(r.get('degraded_fns') or []) for r in results}
     for unit, f in violations:
         key = (unit, f['obligation'])
         if key in seen:
             continue
         seen.add(key)
         path, found = rp.make_replay(pid, unit, f, seed)
-        if havocked.get(unit) and not found:
+        weak = list(havoc_unit.get(unit) or [])
+        if degr_fns.get(unit) and (f.get('function') in degr_fns[unit] or f.get('function') is None):
+            weak.append(f"<loop contracts and proof hints of `{f.get('function')}` not applied: they no longer match the lifted code>")
+        if weak and not found:
             # the obligation fails in a run where std functions unknown to the contract library were left unconstrained:
             # without a failing input replayed on the real code this is "cannot decide", not a violation
-            undecided.append(f"{unit}: {f['obligation']} fails in a weakened run {havocked[unit]} and no failing input was found on the real code")
+            undecided.append(f"{unit}: {f['obligation']} fails in a weakened run {weak} and no failing input was found on the real code")
             continue
         nviol += 1
         lines.append(f'VIOLATION property={pid} replay={path}' + ('' if found else ' no-failing-input-found'))
@@ -576,7 +612,7 @@ def write_evidence(pid, tier, seed, results, nviol, undecided, kf_lines, wall, e
                        'smt_time_ms': r.get('smt_time_ms'), 'wall_s': round(r.get('wall_s', 0), 2), 'canary': r.get('canary'),
                        'failures': [{k: f[k] for k in ('obligation', 'kind', 'source', 'properties')} for f in r['failures']],
                        'auto_shims': sorted((r.get('auto_shims') or {}).keys()), 'auto_havoc_unconstrained_std_functions': r.get('auto_havoc', []),
-                       'undecided': r['undecided']} for r in results],
+                       'degraded_fns': r.get('degraded_fns', []), 'undecided': r['undecided']} for r in results],
             'lift_rewrites': rewrites,
             'smt_time_ms': sum(r.get('smt_time_ms', 0) for r in results),
             'known_findings_printed': kf_lines,
